@@ -21,6 +21,11 @@ pub use a10::verif::{
     TRY_LOCK,
 };
 
+/// A simulated system call is about to execute (kind of scheduling point).
+pub const SYS: u32 = 100;
+/// The worker is blocked inside a simulated system call.
+pub const SYS_BLOCKED: u32 = 101;
+
 #[derive(Clone, Debug, PartialEq)]
 pub enum Status {
     /// Waiting at a scheduling point: (kind, address).
@@ -62,6 +67,16 @@ fn hook(kind: u32, addr: usize) {
             Err(e) => e.into_inner(),
         };
     }
+}
+
+/// Scheduling point at a simulated system call (no-op on unscheduled threads).
+pub fn sys_point(kind: u32, code: usize) {
+    hook(kind, code);
+}
+
+/// Is the calling thread a scheduled worker?
+pub fn is_worker() -> bool {
+    TID.with(|t| t.get()).is_some()
 }
 
 /// Install the hook and forget all workers of a previous case.
